@@ -640,6 +640,13 @@ def check_cases(ctx, cases, label="clean"):
                     continue
                 job["extra"].append((name + "-term", len(reqs), t))
                 reqs.append(f"C08 denote {sx(w)} {sx(ser.ins_wire(ins))} {sx(ser.env_wire(env_lin))}")
+        # the Lean normaliser / unfolder models on the same lazy term
+        job["rewrites"] = []
+        wire_sr = SR[srname][2]
+        for which in ("norm", "unfold"):
+            job["rewrites"].append((which, len(reqs)))
+            reqs.append(f"C08 rewrite {which} {wire_sr} {sx(wire)} {sx(ser.ins_wire(ins))} {sx(ser.ins_wire(ins))} "
+                        f"{sx(ser.env_wire(env_lin))}")
         # optimizer firings
         job["firings"] = []
         for fr in res["firings"]:
@@ -728,6 +735,33 @@ def check_cases(ctx, cases, label="clean"):
             if bad_in or not vals_equal(mv, spec, 0.0):
                 ok_all = False
                 report(name.replace("-term", "") + "-term" if False else name, mv if not bad_in else f"foreign inputs {sorted(bad_in)}")
+        for which, idx in job["rewrites"]:
+            ans = answers[idx]
+            if not ans.startswith("ok "):
+                ctx.infra_errors.append(f"driver: {ans} for rewrite {which} {describe(case)}")
+                continue
+            d = {item[0]: item[1:] for item in parse_sx(ans[3:])}
+            before = [atom_to_num(v) for v in d["before"][0]]
+            after = [atom_to_num(v) for v in d["after"][0]]
+            if any(isinstance(v, float) and v != v for v in before):
+                ctx.count(f"model-{which}:beyond-fragment")
+                continue
+            if not vals_equal(before, spec, 0.0):
+                ctx.infra_errors.append(f"Lean Ex.eval disagrees with Lean denote on {describe(case)}: {before} vs {spec}")
+                continue
+            if not vals_equal(after, spec, 0.0):
+                ctx.infra_errors.append(f"Lean model {which} changed the value (a rule's side condition fails on a clean-stream "
+                                        f"term?) {describe(case)}: {after} vs {spec}")
+                continue
+            ctx.count(f"model-{which}:value-preserved")
+            if which == "norm":
+                ctx.count("model-norm:flat" if d["flat"][0] == "true" else "model-norm:not-flat")
+                n = res["terms"].get("normalize")
+                if n is not None:
+                    shape = root_shape(n, srname if not log else "add-mul", log)
+                    mshape = d["root"][0]
+                    mshape = [str(a) for a in mshape] if isinstance(mshape, list) else str(mshape)
+                    ctx.count("model-norm:root-shape-agrees" if shape == mshape else "model-norm:root-shape-differs")
         for fr, idx, free in job["firings"]:
             ctx.count("optimizer-firing")
             ctx.count(f"firing:operands:{len(fr['terms'])}")
@@ -781,6 +815,29 @@ def check_cases(ctx, cases, label="clean"):
                                  params=dict(case["params"])),
                      nontrivial_key=repr(describe(case)) if nontrivial else None)
     return nfail
+
+
+def root_shape(n, srname, log=False):
+    """root of a funsor term in the vocabulary of the Lean model's `rootShape` (fidelity only)"""
+    if isinstance(n, Contraction):
+        sum_op, prod_op = SR[srname][0], SR[srname][1]
+        if log:
+            sum_op, prod_op = ops.logaddexp, ops.add
+
+        def k(op):
+            return "null" if op is ops.null else "add" if op is sum_op else "mul" if op is prod_op else "other"
+        return ["contraction", k(n.red_op), k(n.bin_op), str(len(n.reduced_vars)), str(len(n.terms))]
+    if isinstance(n, Number):
+        return "num"
+    if isinstance(n, Binary):
+        return "binary"
+    if isinstance(n, Reduce):
+        return "reduce"
+    if isinstance(n, Subs):
+        return "subs"
+    if isinstance(n, Unary):
+        return "unary"
+    return "leaf"
 
 
 def describe(case):
@@ -1275,3 +1332,81 @@ def search(ctx, broken):
                 break
         if found >= 3:
             break
+
+
+# ------------------------------------------------------------------------------------------------
+# translator: the op tables the rules trust  ->  lean/FunsorVerif/Gen/C08Tables.lean
+# ------------------------------------------------------------------------------------------------
+
+def _wire_opname(n):
+    return {"and_": "and", "or_": "or"}.get(n, n)
+
+
+def _unit_atom(v):
+    if isinstance(v, bool):
+        return "XR.fin 1" if v else "XR.fin 0"
+    v = float(v)
+    if v == math.inf:
+        return "XR.pinf"
+    if v == -math.inf:
+        return "XR.ninf"
+    if v != v:
+        return "XR.nan"
+    fr = Fraction(v)
+    return f"XR.fin {fr.numerator}" if fr.denominator == 1 and fr.numerator >= 0 else f"XR.fin ({fr.numerator} / {fr.denominator})"
+
+
+def ast_tables():
+    """UNITS[op] = v and DISTRIBUTIVE_OPS.add((a, b)) as written in funsor/ops/*.py"""
+    import ast
+    from ..common import REPO
+    units, dist = {}, set()
+    for fn in ("builtin.py", "array.py", "op.py"):
+        tree = ast.parse((REPO / "funsor" / "ops" / fn).read_text())
+        for node in ast.walk(tree):
+            if isinstance(node, ast.Assign) and len(node.targets) == 1 and isinstance(node.targets[0], ast.Subscript):
+                t = node.targets[0]
+                if isinstance(t.value, ast.Name) and t.value.id == "UNITS" and isinstance(t.slice, ast.Name):
+                    try:
+                        units[t.slice.id] = eval(compile(ast.Expression(node.value), fn, "eval"), {"math": math})
+                    except Exception:
+                        units[t.slice.id] = ast.unparse(node.value)
+            if isinstance(node, ast.Call) and isinstance(node.func, ast.Attribute) and node.func.attr == "add" \
+                    and isinstance(node.func.value, ast.Name) and node.func.value.id == "DISTRIBUTIVE_OPS" \
+                    and node.args and isinstance(node.args[0], ast.Tuple) and len(node.args[0].elts) == 2 \
+                    and all(isinstance(e, ast.Name) for e in node.args[0].elts):
+                dist.add(tuple(e.id for e in node.args[0].elts))
+    return units, dist
+
+
+def extract(ctx):
+    from ..common import LEAN
+    live_units = {ser.opname(k) if False else getattr(k, "name", getattr(k, "__name__", str(k))): v for k, v in ops.UNITS.items()}
+    live_dist = set((getattr(a, "name", str(a)), getattr(b, "name", str(b))) for a, b in ops.DISTRIBUTIVE_OPS)
+    a_units, a_dist = ast_tables()
+    mism = {}
+    if set(a_units) != set(live_units) or any(
+            not same_num(exact(np.float64(a_units[k])) if not isinstance(a_units[k], str) else 0, exact(np.float64(live_units[k])))
+            for k in set(a_units) & set(live_units)):
+        mism["units"] = dict(ast=repr(a_units), live=repr(live_units))
+    if a_dist != live_dist:
+        mism["distributive"] = dict(ast=sorted(a_dist), live=sorted(live_dist))
+    ctx.extra["tables"] = dict(units={k: str(v) for k, v in sorted(live_units.items())}, distributive=sorted(live_dist))
+    if mism:
+        ctx.extra["table_ast_vs_live_mismatch"] = mism
+        ctx.count("extract:ast-vs-live-mismatch")
+    lines = ["/- GENERATED by fv/harness/c08.py (extract) from funsor/ops/{builtin,array,op}.py — DO NOT EDIT.",
+             "   The live tables `funsor.ops.UNITS` and `funsor.ops.DISTRIBUTIVE_OPS` (what cnf.py / optimizer.py read),",
+             "   cross-checked against the AST of the source files.  Op names as on the wire (and_ -> and, or_ -> or). -/",
+             "import FunsorVerif.Core.XR", "namespace FV.Gen.C08", "open FV", "",
+             "/-- `UNITS[op] = v` -/", "def units : List (String × XR) := ["]
+    lines.append(",\n".join(f'  ("{_wire_opname(k)}", {_unit_atom(v)})' for k, v in sorted(live_units.items())))
+    lines += ["]", "", "/-- `DISTRIBUTIVE_OPS.add((sum_op, prod_op))` -/", "def distributive : List (String × String) := ["]
+    lines.append(",\n".join(f'  ("{_wire_opname(a)}", "{_wire_opname(b)}")' for a, b in sorted(live_dist)))
+    lines += ["]", "", "end FV.Gen.C08", ""]
+    txt = "\n".join(lines)
+    gen = LEAN / "FunsorVerif" / "Gen" / "C08Tables.lean"
+    if not gen.exists() or gen.read_text() != txt:
+        gen.write_text(txt)
+        ctx.count("extract:gen-rewritten")
+    ctx.count("extract:entries", len(live_units) + len(live_dist))
